@@ -8,6 +8,7 @@ import numpy as np
 
 import common
 import gen
+import routes
 from common import Case, Issue, q, ql, line
 
 ID = "C07"
@@ -67,7 +68,7 @@ def gen_one(rng, i, tier):
             a, b = rng.choice([(0.0, 0.5), (0.25, 0.25), (0.5, 1.0), (0.0, 0.0)])
         ivs.append((a, b))
     return {"stream": stream, "pos": pos, "neg": neg, "ep": ep, "en": en, "sc": sc, "ec": ec,
-            "ivs": ivs, "axes": rng.choice(AXES)}
+            "ivs": ivs, "axes": rng.choice(AXES), "route": routes.pick(rng, 0.12), "rseed": rng.randint(0, 2**31 - 1)}
 
 
 def nontrivial(inp):
@@ -86,6 +87,13 @@ def build(inp) -> Case:
     inp = dict(inp)
     pos, neg, ep, en, sc, ec = inp["pos"], inp["neg"], inp["ep"], inp["en"], inp["sc"], inp["ec"]
     s = Scores(pos, neg, nb_easy_pos=ep, nb_easy_neg=en, score_class=sc, equal_class=ec)
+    routed = None
+    if inp.get("route"):
+        # the object reaches the query through an alternative route (harness/routes.py)
+        r_ = routes.apply(s, inp["route"], inp.get("rseed", 0))
+        if r_ is not None and r_[1] and r_[2]:
+            s, pos, neg, ep, en, sc, ec = r_
+            routed = inp["route"]
     pre, lines, obs = [], [], []
     eps = Fraction(1, 10**9)
     queries = [(lo, hi, "fpr", "tpr") for lo, hi in inp["ivs"]]
